@@ -346,10 +346,10 @@ def main():
     if thorough:
         max_nodes, sample_n = 5, 400
     else:
-        max_nodes, sample_n = 4, 10
+        max_nodes, sample_n = 4, 16
         # quick: every single atom and every shape, and a seeded third of the depth-2 products
-        comps = [x for i, x in enumerate(comps) if i < 30 or rng.random() < 0.08]
-        eqs = [x for x in eqs if x[0] not in ("pipe", "comma", "alt", "if") or rng.random() < 0.08]
+        comps = [x for i, x in enumerate(comps) if i < 30 or rng.random() < 0.3]
+        eqs = [x for x in eqs if x[0] not in ("pipe", "comma", "alt", "if") or rng.random() < 0.25]
     rng.shuffle(comps)
     rng.shuffle(eqs)
     tasks = []
